@@ -1,6 +1,7 @@
 import IcyVerif.Drv.Term
 import IcyVerif.Drv.FontLoad
 import IcyVerif.Drv.Rect
+import IcyVerif.Drv.LoaderCost
 open IcyVerif.Drv
 
 def dispatch (line : String) : String :=
@@ -8,6 +9,7 @@ def dispatch (line : String) : String :=
   | "term" :: rest => Term.handle rest
   | "fontload" :: rest => FontLoad.handle rest
   | "rect" :: rest => Rect.handle rest
+  | "loadercost" :: rest => LoaderCost.handle rest
   | _ => "bad-op"
 
 partial def loop (h : IO.FS.Stream) (out : IO.FS.Stream) : IO Unit := do
